@@ -5,6 +5,7 @@ package main
 // of C08 (in a worker subprocess, since a handler panic kills the process).
 
 import (
+	"bytes"
 	"context"
 	"errors"
 	"fmt"
@@ -231,6 +232,11 @@ func (r *srvRun) arrive(kind string) {
 		frame = refPBReq(hdr{Seq: seq, Method: []byte(method), Body: q.args})
 	default:
 		q.args = []byte{0xC0, byte(id), 0, byte(r.e.Rng.Intn(256))}
+		frame = refPBReq(hdr{Seq: seq, Method: []byte(method), Body: q.args})
+	}
+	if (kind == "call" || kind == "callfail") && r.e.Rng.Intn(4) == 0 {
+		// a request larger than the server's read buffer takes the same way through the queues as any other
+		q.args = append(q.args, bytes.Repeat([]byte{0x5A}, 70000)...)
 		frame = refPBReq(hdr{Seq: seq, Method: []byte(method), Body: q.args})
 	}
 	r.sent = append(r.sent, q)
